@@ -73,7 +73,8 @@ P.verify(fn(
         ('lag_sources_are_variables', SRC),
         ('equations_and_settings_kept', "heap_unchanged_except('tyof', 'len.*', 'el.*', 'dh.*', 'dv.*', 'dk', 'f.EquationSolver.TimeSeries', 'f.EquationSolver.VariableList')"),
     ])},
-    ensures=[('every_series_has_horizon_plus_one_points',
+    ensures=[('equations_horizon_and_settings_kept', "heap_unchanged_except('tyof', 'len.*', 'el.*', 'dh.*', 'dv.*', 'dk', 'f.EquationSolver.TimeSeries', 'f.EquationSolver.VariableList')"),
+             ('every_series_has_horizon_plus_one_points',
               'implies(self.Parser.MaxTime >= 0, ' + ' and '.join(S.allj(L, 'len(self.TimeSeries[%s[j][0]]) == self.Parser.MaxTime + 1' % L) for L in (S.ENDO, S.LAG, S.DEC)) +
               ' and ' + EXO_FULL + ')'),
              ('lagged_is_source_one_period_earlier',
